@@ -174,3 +174,13 @@ func (e *MetaCDC) VerifShutdown() {
 		delete(e.replicateEntityMap.data, k)
 	}
 }
+
+// VerifEvent, when set, is told about internal events of the server that have no externally visible call of their own
+// ("dml-loop-exit", <downstream channel>: the write loop of that channel has returned, after its final flush).
+var VerifEvent func(kind, arg string)
+
+func verifEvent(kind, arg string) {
+	if f := VerifEvent; f != nil {
+		f(kind, arg)
+	}
+}
